@@ -43,7 +43,7 @@ func LoROMPakPages(p, q uint32) (bp uint32, ep error, bq uint32, eq error) {
 	return
 }
 
-// @ lemma LoROMPakToBusSound property C04
+// @ lemma LoROMPakToBusSound property C04 C05
 // @   requires p < 0x1000000
 // @   ensures e1 == nil ==> e2 == nil && b < 0x1000000
 // @   ensures e1 == nil ==> mapspec.Class(q) == mapspec.Class(p)
@@ -107,7 +107,7 @@ func HiROMPakPages(p, q uint32) (bp uint32, ep error, bq uint32, eq error) {
 	return
 }
 
-// @ lemma HiROMPakToBusSound property C04
+// @ lemma HiROMPakToBusSound property C04 C05
 // @   requires p < 0x1000000
 // @   ensures e1 == nil ==> e2 == nil && b < 0x1000000
 // @   ensures e1 == nil ==> mapspec.Class(q) == mapspec.Class(p)
@@ -171,7 +171,7 @@ func ExHiROMPakPages(p, q uint32) (bp uint32, ep error, bq uint32, eq error) {
 	return
 }
 
-// @ lemma ExHiROMPakToBusSound property C04
+// @ lemma ExHiROMPakToBusSound property C04 C05
 // @   requires p < 0x1000000
 // @   ensures e1 == nil ==> e2 == nil && b < 0x1000000
 // @   ensures e1 == nil ==> mapspec.Class(q) == mapspec.Class(p)
@@ -235,7 +235,7 @@ func SA1PakPages(p, q uint32) (bp uint32, ep error, bq uint32, eq error) {
 	return
 }
 
-// @ lemma SA1PakToBusSound property C04
+// @ lemma SA1PakToBusSound property C04 C05
 // @   requires p < 0x1000000
 // @   ensures e1 == nil ==> e2 == nil && b < 0x1000000
 // @   ensures e1 == nil ==> mapspec.Class(q) == mapspec.Class(p)
